@@ -15,7 +15,10 @@ const modulePath = "github.com/sarchlab/akita/v5"
 
 var contractsDir = "/verif/contracts"
 
-const contractFileName = "zz_contracts_verif.go"
+// isContractFile: zz_contracts_verif.go and zz_contracts_<part>_verif.go
+func isContractFile(base string) bool {
+	return strings.HasPrefix(base, "zz_contracts") && strings.HasSuffix(base, "_verif.go")
+}
 
 // SpecDB holds every contract file.
 type SpecDB struct {
@@ -33,7 +36,7 @@ func loadSpecDB() (*SpecDB, error) {
 		iface: map[string]*FnSpec{}, ifCF: map[string]*ContractFile{}, ufs: map[string]Sort{}}
 	var paths []string
 	filepath.Walk(contractsDir, func(p string, info os.FileInfo, err error) error {
-		if err == nil && !info.IsDir() && filepath.Base(p) == contractFileName {
+		if err == nil && !info.IsDir() && isContractFile(filepath.Base(p)) {
 			paths = append(paths, p)
 		}
 		return nil
@@ -49,7 +52,31 @@ func loadSpecDB() (*SpecDB, error) {
 		if err != nil {
 			return nil, err
 		}
-		db.files[pkg] = cf
+		if prev, ok := db.files[pkg]; ok {
+			// several contract files of one package are merged
+			for k, d := range cf.Defs {
+				if _, dup := prev.Defs[k]; dup {
+					return nil, fmt.Errorf("%s: definition %s already given in another contract file of %s", p, k, rel)
+				}
+				prev.Defs[k] = d
+			}
+			for _, k := range cf.Order {
+				if _, dup := prev.Fns[k]; dup {
+					return nil, fmt.Errorf("%s: contract %s already given in another contract file of %s", p, k, rel)
+				}
+				prev.Fns[k] = cf.Fns[k]
+				prev.Order = append(prev.Order, k)
+			}
+			for k, g := range cf.Ghosts {
+				prev.Ghosts[k] = g
+			}
+			raw := cf.Raw
+			cf = prev
+			cf.Raw = raw
+		} else {
+			db.files[pkg] = cf
+		}
+		contractFileName := filepath.Base(p)
 		for k, s := range cf.Fns {
 			switch s.Kind {
 			case "ext":
